@@ -224,7 +224,11 @@ CLAIMED = {
             'otherwise its chord end points lie on the circle and on the '
             'pixel boundary, the arc term is called once with them and the '
             'rest equals the shoelace area of (corners inside + end '
-            'points); cached bbox/edges follow attribute re-assignment.',
+            'points); elliptical_overlap_single_exact maps the pixel corners '
+            'into the unit-circle frame of the ellipse predicate, splits '
+            'the image parallelogram into two triangles along a diagonal '
+            'and scales the sum by the Jacobian rx*ry (triangle routine '
+            'stubbed); cached bbox/edges follow attribute re-assignment.',
             'reals for floats (float64 sliver of from_float outside); exact '
             'kernels: arc-area correctness (asin) not addressed, so "sums '
             'to the analytic area" and weights in [0,1] for exact masks are '
